@@ -44,15 +44,15 @@ Definition check_case (c : case) : bool :=
       && (size OtlpSchema m v =? sz) && (blen b =? sz)
       && canonical OtlpSchema m (norm OtlpSchema m v)
       && opv_eqb (decode OtlpSchema m b) (Some (norm OtlpSchema m v))
-  | 1%nat =>
-      match decode OtlpSchema m b with
+  | 1%nat =>   (* generated Unmarshal and ProtoUnmarshaler.UnmarshalX: the path that does not migrate *)
+      match decode_path OtlpSchema PProtoUnmarshaler m b with
       | None => true
       | Some d => pv_eqb v (VSome d) && canonical OtlpSchema m (norm OtlpSchema m d)
       end
-  | 2%nat =>
-      match decode OtlpSchema m b with
+  | 2%nat =>   (* ExportRequest.UnmarshalProto: the path that migrates *)
+      match decode_path OtlpSchema PExportRequestProto m b with
       | None => true
-      | Some d => pv_eqb v (VSome (migrate OtlpSchema m d))
+      | Some d => pv_eqb v (VSome d) && no_deprecated OtlpSchema m d && res_shaped OtlpSchema m d
       end
   | 3%nat => true
   | 4%nat => jv_eqb (otlp_to_json m v) j
